@@ -656,7 +656,7 @@ static void tsan_case(uint64_t idx, void *arg)
 int main(int argc, char **argv)
 {
         mc_init(argc, argv, "C20");
-        mc_set_budget(150, 1500);
+        mc_set_budget(300, 1500);
         bound = mc_tier == MC_THOROUGH ? 3 : 2;
         boundT = mc_tier == MC_THOROUGH ? 2 : 1;
         nshards = mc_tier == MC_THOROUGH ? 64 : 32;
